@@ -55,6 +55,18 @@ pub fn digest_string(content: &str) -> String {
 }
 
 /// Computes the digest of a slice of bytes
+/// Parses JSON text written by a replica (an object of a pack, a delta block). The parser's default
+/// nesting limit is lifted: update and commit accept values nested to any depth, so reading them back
+/// must too
+pub(crate) fn parse_stored_json(text: &str) -> Result<Value> {
+    use serde::Deserialize;
+    let mut de = serde_json::Deserializer::from_str(text);
+    de.disable_recursion_limit();
+    let value = Value::deserialize(&mut de)?;
+    de.end()?;
+    Ok(value)
+}
+
 pub fn digest_bytes(content: &[u8]) -> String {
     let mut hasher = Sha256::new();
     hasher.update(content);
